@@ -166,7 +166,7 @@ def walk_table(gen, depth, maxports, multi=False, runtime=False):
         extra = []
         for p in t["ports"]:
             if not p["leaf"]:
-                if multi and rng.random() < 0.5:
+                if multi and rng.random() < 0.5 and p["pat"]["segs"][0]["k"] == "lit":      # (a name that BEGINS with its enumeration stays as it is)
                     segs = p["pat"]["segs"]
                     # turn "x/" into "x#2/y#3/z/" style
                     base = segs[0]["s"][:]
